@@ -392,6 +392,9 @@ def check(prop, tier, seed):
     def kind_of(c):
         r = c.get("run")
         return r if r in ("sched", "key", "ident") else ""
+    # textual cases are independent of everything else: they go last (stable), so that a topic which interleaves them
+    # with other cases (fuzz) does not cut the run into hundreds of chunks of one case, each with its own TLC start
+    cases.sort(key=lambda c: {"ident": 1, "key": 2}.get(kind_of(c), 0))
     # textual cases (one or two events each, judged in microseconds) go in chunks of 20,000
     LIM = {"sched": max(chunk, 700), "key": 20000, "ident": max(chunk, 5000)}
     while start < len(cases):
